@@ -1,5 +1,5 @@
 (* C12 - transfer callbacks bracket and count the transfer; cancellation stops and aborts. *)
-From LibFtp Require Import Bytes Reply Endpoint Ascii DataConn DataConn_Proofs Client Client_Proofs Login_Proofs Transfer_Proofs Transfer_More.
+From LibFtp Require Import Bytes Reply Endpoint Ascii DataConn DataConn_Proofs Client Client_Proofs Login_Proofs Transfer_Proofs Transfer_More Transfer_Cb.
 Local Open Scope N_scope.
 
 (* upload: poll first; cancelled at once => nothing else happens (no begin, no end, no byte);
@@ -76,3 +76,58 @@ Theorem C12_cancelled_download_aborts : forall w path answers answers' answers''
     io_events (skipn (length (w_trace w)) (w_trace w')) = ev ++ [IoPoll true].
 Proof. exact download_cancelled_passive. Qed.
 Print Assumptions C12_cancelled_download_aborts.
+
+(* C12 on whole calls that are given a callback which never cancels (passive modes, any transfer type): the call
+   completes, and the callback saw: a negative poll, begin, the blocks (no other begin / end, no positive poll),
+   end, and the client's final negative poll *)
+Theorem C12_download_with_callback_brackets : forall w path answers answers' answers'' ev r1 r2 rest x1 x2 x3 ip port,
+  insync w (r1 :: r2 :: rest) -> w_data w = None ->
+  c_mode (w_cfg w) = Passive -> c_tls (w_cfg w) = false ->
+  has_crlf path = false ->
+  simple_reaction r1 x1 -> is_negative x1 = false -> passive_target (w_cfg w) x1 ip port ->
+  dp_reachable (r_data r1) = true ->
+  accepts_transfer r2 x2 x3 ->
+  data_recv (c_type (w_cfg w)) (mkSink None O) (dp_segs (r_data r2)) (dp_end (r_data r2)) (Some answers) = (ev, PDone, Some answers') ->
+  poll answers' = (false, answers'') ->
+  exists w' body, step w (ADownload path (Some answers) None) = (OReturn (RvReplies [x1; x2; x3]), w') /\
+    io_events (skipn (length (w_trace w)) (w_trace w')) = IoPoll false :: IoBegin :: body ++ [IoEnd; IoPoll false] /\
+    count_ev is_begin body = O /\ count_ev is_end body = O /\ count_ev is_poll_true body = O.
+Proof. exact download_with_callback_brackets. Qed.
+Print Assumptions C12_download_with_callback_brackets.
+
+Theorem C12_upload_with_callback_brackets : forall w u path chunks answers answers' answers'' ev r1 r2 rest x1 x2 x3 ip port,
+  insync w (r1 :: r2 :: rest) -> w_data w = None ->
+  c_mode (w_cfg w) = Passive -> c_tls (w_cfg w) = false ->
+  has_crlf path = false ->
+  simple_reaction r1 x1 -> is_negative x1 = false -> passive_target (w_cfg w) x1 ip port ->
+  dp_reachable (r_data r1) = true ->
+  accepts_transfer r2 x2 x3 ->
+  data_send (c_type (w_cfg w)) block_size chunks (Some answers) = (ev, PDone, Some answers') ->
+  poll answers' = (false, answers'') ->
+  exists w' body, step w (AUpload u path chunks (Some answers)) = (OReturn (RvReplies [x1; x2; x3]), w') /\
+    io_events (skipn (length (w_trace w)) (w_trace w')) = IoPoll false :: IoBegin :: body ++ [IoEnd; IoPoll false] /\
+    count_ev is_begin body = O /\ count_ev is_end body = O /\ count_ev is_poll_true body = O /\
+    notified body = length (net_out_bytes body).
+Proof. exact upload_with_callback_brackets. Qed.
+Print Assumptions C12_upload_with_callback_brackets.
+
+(* a whole cancelled upload: ABOR after the data loop stopped, both replies read and returned, data socket closed *)
+Theorem C12_cancelled_upload_aborts : forall w u path chunks answers answers' answers'' ev r1 r2 r3 rest x1 x2 x4 x5 ip port pr,
+  insync w (r1 :: r2 :: r3 :: rest) -> w_data w = None ->
+  c_mode (w_cfg w) = Passive -> c_tls (w_cfg w) = false ->
+  has_crlf path = false ->
+  simple_reaction r1 x1 -> is_negative x1 = false -> passive_target (w_cfg w) x1 ip port ->
+  dp_reachable (r_data r1) = true ->
+  simple_reaction r2 x2 -> is_negative x2 = false ->
+  data_send (c_type (w_cfg w)) block_size chunks (Some answers) = (ev, pr, Some answers') ->
+  pr <> PThrow -> poll answers' = (true, answers'') ->
+  r_now r3 = [RReply x4; RReply x5] -> r_on_close r3 = [] -> r_close_after r3 = false ->
+  code x4 = 426 -> code x5 <> 421 ->
+  exists w', step w (AUpload u path chunks (Some answers)) = (OReturn (RvReplies [x1; x2; x4; x5]), w') /\
+    insync w' rest /\ w_data w' = None /\ w_cfg w' = w_cfg w /\
+    wire_events (skipn (length (w_trace w)) (w_trace w')) =
+      [WLine (setup_line (w_cfg w)); WReply x1; WLine (upverb_bytes u ++ SP :: path); WReply x2; WLine ABOR_; WReply x4; WReply x5] /\
+    data_events (skipn (length (w_trace w)) (w_trace w')) = [DNewObj; DConnectTo ip port true; DClose] /\
+    io_events (skipn (length (w_trace w)) (w_trace w')) = ev ++ [IoPoll true].
+Proof. exact upload_cancelled_passive. Qed.
+Print Assumptions C12_cancelled_upload_aborts.
